@@ -168,6 +168,14 @@ func Solve(dir, name, smt string, secs int, all bool) SolveResult {
 				cancel()
 				break
 			}
+			// cross-check mode: the others get ten more seconds to agree or disagree
+			go func() {
+				select {
+				case <-ctx.Done():
+				case <-time.After(10 * time.Second):
+					cancel()
+				}
+			}()
 		}
 	}
 	if res.Solver == "" {
